@@ -291,6 +291,12 @@ fn run_op(line: &str) -> R {
                 hx(key.address().to_string().as_bytes()),
             ])
         }
+        "secp.affine" => {
+            // the public key alone; the model side answers with the affine arithmetic that is proved to be the group law
+            let b = unhex(arg(1)?)?;
+            let key = PrivateKey::new(&b).map_err(e)?;
+            Ok(vec![hx(key.public().encode_uncompressed())])
+        }
         "acct.sign" => {
             let b = unhex(arg(1)?)?;
             let d = digest_from(&unhex(arg(2)?)?)?;
